@@ -173,7 +173,12 @@ theorem detach_node_step {f : Forest} {e nm : Nat} {N A S : List HTree} (h : MIn
     unfold withKids
     rw [mapAtList_append]
     simp only [mapAtList, mapAt_not_mem e _ n hen]
-  · apply h.update k (s1 ++ s2) hloc'
+  · apply h.update k (s1 ++ s2) (fun x hx => h.leaf k x (by
+      rw [hs]
+      simp only [List.mem_append, List.mem_cons] at hx ⊢
+      rcases hx with hx | hx
+      · exact Or.inl hx
+      · exact Or.inr (Or.inr hx))) hloc'
     · intro x hx
       apply h.sect.sec_cat k x
       rw [hs]
